@@ -908,8 +908,18 @@ func sfRunWindow(c *engine.Ctx, sc sfCase, srv *sfSrv) {
 	var opts []nodeenrollment.Option
 	nb, nbSet := sfSkew(sc.NB, sc.NBUnset, sfDocNotBefore)
 	na, naSet := sfSkew(sc.NA, sc.NAUnset, sfDocNotAfter)
+	// applications assemble option lists whose optional members stay nil when a feature is off; the library
+	// skips nil entries, and the configured skews count wherever they stand in the list
+	nils := (sc.A+sc.B+sc.NB+sc.NA)%3 == 0
+	if nils {
+		opts = append(opts, nil)
+		r.Count("window_cases_with_nil_entries_in_front_of_the_skew_options", 1)
+	}
 	if nbSet {
 		opts = append(opts, nodeenrollment.WithNotBeforeClockSkew(nb))
+	}
+	if nils {
+		opts = append(opts, nil)
 	}
 	if naSet {
 		opts = append(opts, nodeenrollment.WithNotAfterClockSkew(na))
